@@ -241,7 +241,7 @@ func runC17(c *core.Ctx) {
 				}
 			}
 			// ---- __type(name:) for every name, literal and variable
-			for _, n := range append(append([]string{}, typeNames...), "Zq7Unknown", "Int") {
+			for _, n := range append(append(append([]string{}, typeNames...), "Zq7Unknown", "Int", "skip", "deprecated"), s.DirectiveNames()...) {
 				for _, viaVar := range []bool{false, true} {
 					q := `{__type(name: "` + n + `"){` + c17TypeSel("(includeDeprecated: true)") + `}}`
 					var vars map[string]interface{}
